@@ -152,10 +152,26 @@ def _assigned(stmts) -> set[str]:
 
 
 class Enumerator:
-    def __init__(self, max_paths: int = 512, split_ifexp: bool = True, containers: Optional[set[str]] = None):
+    def __init__(self, max_paths: int = 512, split_ifexp: bool = True, containers: Optional[set[str]] = None, nonnull=None):
         self.max_paths = max_paths
         self.split_ifexp = split_ifexp
         self.containers = containers  # names whose in-place growth is recorded (None = any local)
+        self.nonnull = nonnull  # predicate: this expression can never be None (declared types)
+
+    def _known(self, t: ast.expr) -> Optional[bool]:
+        """Truth value of a test that is decided by what was substituted into it."""
+        ct, pol = canon_test(t, True)
+        if isinstance(ct, ast.Compare) and len(ct.ops) == 1 and isinstance(ct.ops[0], ast.Is) and isinstance(ct.comparators[0], ast.Constant) and ct.comparators[0].value is None:
+            x = ct.left
+            if isinstance(x, ast.Constant):
+                return (x.value is None) == pol
+            if isinstance(x, (ast.List, ast.Tuple, ast.Dict, ast.ListComp, ast.DictComp, ast.JoinedStr, ast.BinOp)):
+                return (False) == pol
+            if self.nonnull is not None and self.nonnull(x):
+                return (False) == pol
+        if isinstance(ct, ast.Constant) and isinstance(ct.value, bool):
+            return ct.value == pol
+        return None
 
     # -- assignment helpers
     def _bind(self, p: Path, target: ast.expr, value: ast.expr, node: ast.AST) -> None:
@@ -279,7 +295,12 @@ class Enumerator:
         if isinstance(st, ast.If):
             t = subst(st.test, p.env)
             out = []
+            known = self._known(t)
             for pol, block in ((True, st.body), (False, st.orelse)):
+                if known is not None:
+                    if pol == known:
+                        out.extend(self.run(block, p.copy()))
+                    continue
                 if self._contradicts(p, t, pol):
                     continue
                 q = p.copy()
@@ -346,6 +367,38 @@ class Enumerator:
         p.effects.append(Effect("call", norm(v.func) if isinstance(v, ast.Call) else "", v, st))
 
 
-def enumerate_paths(stmts: list[ast.stmt], env: Optional[dict[str, ast.expr]] = None, containers: Optional[set[str]] = None, max_paths: int = 512, split_ifexp: bool = True) -> list[Path]:
+def enumerate_paths(stmts: list[ast.stmt], env: Optional[dict[str, ast.expr]] = None, containers: Optional[set[str]] = None, max_paths: int = 512, split_ifexp: bool = True, nonnull=None) -> list[Path]:
     start = Path(env=dict(env or {}))
-    return Enumerator(max_paths, split_ifexp, containers).run(stmts, start)
+    return Enumerator(max_paths, split_ifexp, containers, nonnull).run(stmts, start)
+
+
+def declared_nonnull(R, f):
+    """Predicate "this expression is never None" from DECLARED types: the result of a call whose
+    resolved repository callee has a return annotation without None / Optional, and ``self.x``
+    whose annotated assignment in ``__init__`` has an annotation without None / Optional."""
+
+    def ann_nonnull(a: Optional[ast.expr]) -> bool:
+        if a is None:
+            return False
+        txt = norm(a)
+        if isinstance(a, ast.Constant) and isinstance(a.value, str):
+            txt = a.value
+        return "None" not in txt and "Optional" not in txt and "Any" not in txt
+
+    def pred(x: ast.expr) -> bool:
+        if isinstance(x, ast.Call):
+            try:
+                cands = R.resolve_call(f, x)
+            except Exception:
+                return False
+            fs = [c for c in cands if hasattr(c, "node") and isinstance(getattr(c, "node", None), (ast.FunctionDef, ast.AsyncFunctionDef))]
+            return bool(fs) and len(fs) == len(cands) and all(ann_nonnull(c.node.returns) for c in fs)
+        if isinstance(x, ast.Attribute) and isinstance(x.value, ast.Name) and x.value.id == "self" and f.cls is not None:
+            init = R.repo.find_member(f.cls, "__init__")
+            if init is None:
+                return False
+            anns = [n.annotation for n in ast.walk(init.node) if isinstance(n, ast.AnnAssign) and norm(n.target) == norm(x)]
+            return bool(anns) and all(ann_nonnull(a) for a in anns)
+        return False
+
+    return pred
